@@ -119,6 +119,12 @@ def rule_recursion(ctx: Ctx) -> None:
         regions = tested.get(k, [])
         rec = any("evaluate_lazy(" in norm(r) or ".evaluate()" in norm(r) for r in regions)
         ctx.tri("4-recursion", el, regions[0] if regions else el.node, rec, not regions, f"{k}: evaluated recursively", f"evaluate_lazy never tests for `{k}`: lazy values inside a {k} reach the user function unevaluated", f"{k}: branch found but no recursive call recognised", key=f"kind {k}")
+    # the evaluated container is rebuilt with a constructor that is known to accept one iterable (the builtin, or a literal /
+    # comprehension): `type(x)(generator)` also runs the constructors of subclasses (NamedTuple, ...), which take other arguments
+    generic = [c for c in ast.walk(el.node) if isinstance(c, ast.Call) and isinstance(c.func, ast.Call) and dotted(c.func.func) == "type" and c.args and isinstance(c.args[0], (ast.GeneratorExp, ast.ListComp))] + \
+              [c for c in ast.walk(el.node) if isinstance(c, ast.Call) and isinstance(c.func, ast.Attribute) and c.func.attr == "__class__" and c.args and isinstance(c.args[0], (ast.GeneratorExp, ast.ListComp))]
+    ctx.add("4-recursion", el, generic[0] if generic else el.node, not generic, "containers are rebuilt with the builtin constructors / literals" if not generic else
+            f"`{norm(generic[0])[:60]}` rebuilds the container through the class of the argument: for a subclass whose constructor does not take one iterable (a NamedTuple, ...) evaluate() raises TypeError where the eager call returns a value", key="rebuild")
     call = P.func("pipefunc._pipefunc.PipeFunc.__call__")
     user = [c for c in ast.walk(call.node) if isinstance(c, ast.Call) and norm(c.func) == "self.func"]
     if user:
